@@ -36,3 +36,13 @@ Proof.
     rewrite <- H1 in H2. pose proof (proj1 map_ext_in_iff H2 _ Hin) as E. cbn [fst snd] in E.
     injection E as ->. apply sx_eqb_refl19.
 Qed.
+
+(* the executable statement demands a dataset for every valid request: an exception observed from either
+   constructor (or from Pipeline.map) is always judged a violation *)
+Theorem spec_rejects_errors c e : valid c = true -> spec_ok c (SErr e) = false.
+Proof.
+  intros Hv. unfold spec_ok. rewrite Hv. cbn [negb].
+  unfold valid in Hv. repeat (apply andb_true_iff in Hv as [Hv ?]).
+  destruct (denote_run sym_body (c_funcs c) (c_inputs c) (c_internal c)) as [den|e']; [|discriminate].
+  reflexivity.
+Qed.
